@@ -35,9 +35,12 @@ pub fn layer_build(proto: Proto, layer: Layer, keys: &LibKeys, nonce: &[u8], msg
       let data = ClaimSpec::Custom("data".into(), Value::String(msg.to_string()));
       let nbf = ClaimSpec::Nbf(PAST_NBF.into());
       let mut b = new_builder(proto, l);
-      b.set(&data)?;
-      if l == Layer::Prelude {
-        b.set(&nbf)?;
+      let claims_last = msg.len() % 3 == 1; // the claims go in before or after footer and assertion
+      if !claims_last {
+        b.set(&data)?;
+        if l == Layer::Prelude {
+          b.set(&nbf)?;
+        }
       }
       let reuse = msg.len() % 5 == 1; // setters called twice: the value set last counts
       if let Some(f) = footer {
@@ -52,6 +55,12 @@ pub fn layer_build(proto: Proto, layer: Layer, keys: &LibKeys, nonce: &[u8], msg
         }
         if !b.assertion(a) {
           return Err(LibErr::other("harness: v1/v2 take no implicit assertion"));
+        }
+      }
+      if claims_last {
+        b.set(&data)?;
+        if l == Layer::Prelude {
+          b.set(&nbf)?;
         }
       }
       // every fourth builder is asked twice; the second token is the one handed on (same claims, footer and assertion:
@@ -147,7 +156,8 @@ pub struct RtCase {
   pub footer: Option<Text>,
   pub assertion: Option<Text>,
   /// attempts that must fail, made on the same thread between building and the round-trip parse (bit set):
-  /// 1 wrong key, 2 wrong footer, 4 wrong assertion, 8 tampered token, 16 garbage / truncated text
+  /// 1 wrong key, 2 wrong footer, 4 wrong assertion, 8 tampered token, 16 garbage / truncated text,
+  /// 32 application callbacks that panic (validators, Serialize impls), 64 twenty parses refused by a validator
   #[serde(default)]
   pub before: u8,
 }
@@ -196,7 +206,7 @@ fn nonce_for(proto: Proto) -> BoxedStrategy<Vec<u8>> {
 pub fn rt_case(proto: Proto, layer: Layer) -> BoxedStrategy<RtCase> {
   let msg = if proto.cost() > 4 { gen::short_text() } else { gen::text() };
   let assertion = if proto.has_assertion() { gen::opt_text() } else { Just(None).boxed() };
-  (gen::bytes32(), nonce_for(proto), msg, gen::opt_text(), assertion, prop_oneof![3 => Just(0u8), 1 => 1u8..32])
+  (gen::bytes32(), nonce_for(proto), msg, gen::opt_text(), assertion, prop_oneof![3 => Just(0u8), 1 => 1u8..128])
     .prop_map(move |(key_seed, nonce, msg, footer, assertion, before)| RtCase { proto, layer, key_seed, nonce, msg, footer, assertion, before })
     .boxed()
 }
